@@ -109,6 +109,7 @@ Proof.
   - destruct (e_st (ent s c0)) eqn:ES; try discriminate.
     destruct (closed s && negb (loaded_on (loops s (e_host (ent s c0))) i)); try discriminate. inv_some. simpl. apply Hup. congruence.
   - destruct (e_st (ent s c0)) eqn:ES; try discriminate. destruct (closed s); try discriminate. inv_some. simpl. apply Hup. congruence.
+  - destruct (e_st (ent s c0)) eqn:ES; try discriminate. inv_some. simpl. apply Hup. congruence.
 Qed.
 
 Lemma fresh_stays_fresh : forall s l s' c, Inv s -> step s l = Some s' -> is_submit l = false ->
